@@ -152,6 +152,7 @@ MUTANTS = [
     ("C05", "none-results-yielded-stop", "typhon/collocations/collocator.py", "                if collocations is None:\n                    results.put([name, progress, None])\n                    continue", "                if collocations is None:\n                    results.put([name, progress, None])\n                    break"),
     # (never setting the bundle tag only changes how results are grouped, not the bag: equivalent for C05)
     ("C05", "save-cache-drops-current", "typhon/collocations/collocator.py", "                    cached_data = []\n                    cached_attributes = {}\n\n                # So far, we have not cached", "                    cached_data = []\n                    cached_attributes = {}\n                    continue\n\n                # So far, we have not cached"),
+    ("C13", "netcdf-ints-become-floats", "typhon/files/handlers/common.py", "                                and not np.ma.is_masked(values):", "                                and False:"),
 ]
 
 
